@@ -157,9 +157,17 @@ func (o *oracle) Finish(s *walletkit.Session) {
 		}
 		return accepted, fmt.Sprint(perr), true
 	}
+	// a history that produced a usable-but-unspendable output gets only the expected-invalid
+	// probe: accepted probe blocks would raise the height and unlock the output
+	hasInvalid := false
+	for _, x := range o.final {
+		if !x.spendable {
+			hasInvalid = true
+		}
+	}
 	n := 0
 	for _, x := range o.final {
-		if !x.spendable || n >= 3 || used[x.u.OutputID.String()] {
+		if hasInvalid || !x.spendable || n >= 3 || used[x.u.OutputID.String()] {
 			continue
 		}
 		ref := cur.Utxo[x.u.OutputID]
@@ -232,12 +240,15 @@ func TestC25(t *testing.T) {
 	defer r.Finish()
 	env := walletkit.Setup()
 	base := t.TempDir()
-	r.Rule("a real wallet follows a real node; history class 'tree': random block trees (26-44 blocks) with wallet-owned normal / vote / coinbase-reward outputs, spends at the maturity / lock boundary, forks that roll spends back, four delivery orders; history class 'rollback-restart': a wallet vote output / coinbase reward is spent at its earliest height on branch A, the federation justifies a shorter branch B forking below the spend, and the restarted wallet walks the rollback. At every quiescent point each wallet record that is unspent on the main chain is put to the wallet's own spend-UTXO action; usable => spendable at the next height per the reference ledger; probe blocks on the real node at the end. distinct = (history class, tree shape, delivery order)")
+	r.Rule("a real wallet follows a real node; history class 'tree': random block trees (26-44 blocks) with wallet-owned normal / vote / coinbase-reward outputs, spends at the maturity / lock boundary, forks that roll spends back, four delivery orders; history class 'mini-fork': a 4-block common chain, one block with a chosen wallet content (vote receipt / spend / veto / chained spend) overtaken by a 2-block branch and brought back; history class 'rollback-restart': a wallet vote output / coinbase reward is spent at its earliest height on branch A, the federation justifies a shorter branch B forking below the spend, and the restarted wallet walks the rollback. At every quiescent point each wallet record that is unspent on the main chain is put to the wallet's own spend-UTXO action; usable => spendable at the next height per the reference ledger; probe blocks on the real node at the end. distinct = (history class, tree shape, delivery order)")
 	r.Assume(fmt.Sprintf("'reported usable at the current height' = the wallet's spend-UTXO build action reserves the output (utxoKeeper.ReserveParticular: ValidHeight <= chain best height); 'spendable at the next height' = reference ledger (coinbase: created+%d <= h+1, vote: created+%d <= h+1), cross-checked by probe blocks on the real node; records that are not unspent outputs of the main chain are C24's business and skipped; points where the updater has not been woken are not judged", consensus.CoinbasePendingBlockNumber, env.Net.P.VotePending))
-	r.Cases("tree", r.N(24, 2400), func(c *ev.Case) {
+	r.Cases("mini-fork", r.N(8, 80), func(c *ev.Case) {
+		walletkit.RunMini(c, env, fmt.Sprintf("%s/m%d", base, c.Index), &oracle{})
+	})
+	r.Cases("tree", r.N(24, 1000), func(c *ev.Case) {
 		walletkit.RunTree(c, env, fmt.Sprintf("%s/t%d", base, c.Index), &oracle{})
 	})
-	r.Cases("rollback-restart", r.N(16, 600), func(c *ev.Case) {
+	r.Cases("rollback-restart", r.N(16, 250), func(c *ev.Case) {
 		walletkit.RunRollback(c, env, fmt.Sprintf("%s/r%d", base, c.Index), &oracle{})
 	})
 	r.Floor("points_checked", 300)
